@@ -209,6 +209,15 @@ def run(cx):
                     inst.violation(hn.path, need_.split("(")[0], "HalfConnection::new does not wire %s to the matching Config fields" % need_.split("(")[0])
 
 
+_run_core = run
+
+
+def run(cx):
+    _run_core(cx)
+    from props.shared import dispatch_table
+    dispatch_table(cx, "C07.h", only={"HandshakeSynFrame", "HandshakeSynAckFrame", "HandshakeAckFrame", "HandshakeErrorFrame"})
+
+
 SELFTEST = [
     {"name": "accept any nonce_ack in Server::handle_handshake_ack",
      "edits": [{"file": "src/server/mod.rs", "old": "if handshake.nonce_ack == state.local_nonce {\n                        use crate::packet_id;", "new": "if handshake.nonce_ack == state.local_nonce || true {\n                        use crate::packet_id;"}],
